@@ -700,6 +700,44 @@ def r12_10(prog: Program, rep: Report):
     return n
 
 
+def memo_unbounded(prog: Program, rep: Report, rule: str):
+    """A memo is invisible only while it never forgets: typing makes equal keys of annotations that the functions tell apart
+    (`K | None == Optional[K]`, `Union[int, str] == Union[str, int]`), so the answer for such a key is the one of the spelling
+    seen first -- for good, as long as the entry stays.  With a bounded memo the entry is evicted after enough other types
+    have been inspected, the other spelling is seen "first" the next time, and the same call gives another answer than it gave
+    before.  A bound is harmless only where equal keys are interchangeable inputs: functions of exact text."""
+    import ast as _ast
+
+    n = 0
+    sites: list[tuple[str, object, object, object]] = []  # (name, module, memoiser expression, memoised function or None)
+    for f in prog.functions.values():
+        if prog.is_memoised(f):
+            for dn in f.node.decorator_list:
+                nm = prog.resolve_expr_name(f.module, dn.func if isinstance(dn, _ast.Call) else dn)
+                if nm in ("functools.cache", "functools.lru_cache") or prog._memo_wrapper(nm):
+                    sites.append((f.qualname, f.module, dn, f))
+    for m in prog.modules.values():
+        for nm, v in m.assigns.items():
+            if isinstance(v, _ast.Call) and v.args:
+                fn = prog.resolve_expr_name(m, v.func)
+                if fn in ("functools.cache", "functools.lru_cache") or prog._memo_wrapper(fn):
+                    target = prog.resolve_expr_name(m, v.args[0])
+                    sites.append((f"{m.name}.{nm}", m, v.func, prog.functions.get(target or "")))
+    for q, mod, expr, f in sorted(sites, key=lambda x: x[0]):
+        bound = prog.memo_bound(mod, expr)
+        n += 1
+        if bound == "unknown":
+            rep.undecided(rule, q, getattr(f, "loc", ""), "the size of this memo cannot be read from the source", detail="memo-unbounded")
+            continue
+        text_keyed = False
+        if f is not None:
+            a = f.node.args
+            ps = a.posonlyargs + a.args + a.kwonlyargs
+            text_keyed = bool(ps) and not a.vararg and not a.kwarg and all(p.annotation is not None and _ast.unparse(p.annotation) in ("str", "'str'") for p in ps)
+        rep.check(bound is None or text_keyed, rule, q, getattr(f, "loc", ""), "the memo never forgets (or is keyed by exact text)", f"the memo keeps {bound} entries and is keyed by annotations: typing makes equal keys of spellings the function tells apart (K | None == Optional[K]; Union[int, str] == Union[str, int]), so after enough other types have been inspected the entry is evicted and the same call answers for the other spelling -- origin(K | None) is types.UnionType, later typing.Union", detail="memo-unbounded")
+    return n
+
+
 def run(prog: Program, rep: Report, tier: str):
     rep.rule("R12.10", "lazy proxies resolve the class their reference names now", floor=2)
     r12_10(prog, rep)
@@ -709,6 +747,8 @@ def run(prog: Program, rep: Report, tier: str):
     from . import c11 as _c11
 
     _c11.shared_reference_memo(prog, rep, "R12.11")
+    rep.rule("R12.12", "memos keyed by annotations never forget", floor=50)
+    memo_unbounded(prog, rep, "R12.12")
     rep.rule("R12.1", "no call-time state write that is read back (frozen latches excepted)", floor=3)
     rep.rule("R12.2", "memoised mutable results do not escape through routine/API returns; no memoised one-shot objects", floor=40)
     rep.rule("R12.3", "key granularity of memoised functions (triaged candidates)", floor=5)
